@@ -9,6 +9,7 @@
 //	YIELD(e)  YIELDFROM(it)  RETURN
 //	GENCALL(T, f, args…)       calling a generator: an iterator value in both worlds
 //	ITER(T)                    the iterator type           co: co.Iter[T]     ref: vm.PullerOf[T]
+//	ITERFIELD()                name of an embedded field of that type   co: Iter   ref: PullerOf
 //	RANGEITER(v, tok, e) {     consumer loop               co: for v tok range e {
 //	                                                         ref: for it := e; it.MoveNext(); { v tok it.Current()
 //	@                          replaced by the instance prefix
@@ -126,7 +127,7 @@ func (x *expander) q(name string) string { // qualified co identifier
 	return x.co + "." + name
 }
 
-var macros = []string{"GENCALL", "YIELDFROM", "YIELD", "RANGEITER", "ITER", "GENLIT", "GENM", "GEN"}
+var macros = []string{"GENCALL", "YIELDFROM", "YIELD", "RANGEITER", "ITERFIELD", "ITER", "GENLIT", "GENM", "GEN"}
 
 // expand rewrites every macro occurrence, innermost arguments first
 func (x *expander) expand(s string) string {
@@ -189,6 +190,12 @@ func (x *expander) macro(m string, args []string, after string) (string, int) {
 			return "vm.YieldFromRef(y, " + args[0] + ")", 0
 		}
 		return x.q("YieldFrom") + "(" + args[0] + ")", 0
+	case "ITERFIELD":
+		// the name of an embedded field of the iterator type: ITERFIELD()
+		if x.ref {
+			return "PullerOf", 0
+		}
+		return "Iter", 0
 	case "ITER":
 		if x.ref {
 			return "vm.PullerOf[" + args[0] + "]", 0
